@@ -6,7 +6,7 @@ import Driver.Util
     `qq <hex>`  → result of `q`, followed (when accepted) by the result of validating the output again
     `lim <int>` → `ok <n>` | `err <n>`          (n = the integer returned next to the error)
     `dec <hex>` → the runes Go's `range` yields: `c<hex code point>` / `b<hex invalid byte>`, comma separated
-    `witness`   → hex of `Wtf.Validate.idemWitness` (driver only)
+    `witness`   → hex of `Wtf.Validate.idemWitness`, the input of `Wtf.C14.idem_old_witness` (driver only)
     `tbl space|control` → the model's table as hex ranges over all code points 0..0x10FFFF -/
 namespace Driver.Validate
 open Wtf Wtf.Validate
